@@ -2,11 +2,12 @@
 
 Thread 1 runs `first` under a line tracer limited to one source file and stops before executing its k-th line in that file; thread 2 then
 runs `second` as far as it gets (to completion, unless it has to wait for something thread 1 holds); thread 1 resumes.  All waits are
-bounded: a thread that is still alive at the end is reported as stuck instead of hanging the check."""
+bounded (generously: the machine may be busy with other checks; the bound only matters when a thread really never returns): a thread that
+is still alive at the end is reported as stuck instead of hanging the check."""
 import sys, threading
 
 
-def run_preempted(first, second, filename, k, settle=0.3, limit=12.0):
+def run_preempted(first, second, filename, k, settle=1.0, limit=90.0):
     paused, resume = threading.Event(), threading.Event()
     res, err, seen = {}, {}, [0]
 
